@@ -1,6 +1,7 @@
 package main
 
 import (
+	"golang.org/x/tools/go/ssa"
 	"regexp"
 	"fmt"
 	"go/constant"
@@ -48,6 +49,14 @@ type Val struct {
 	Sub []Val
 	L   *Loc
 	Fn  interface{}
+	// a function value that is one of several function constants, each under
+	// its own condition (phi over non-capturing closures / package functions)
+	Alts []FnAlt
+}
+
+type FnAlt struct {
+	Cond string
+	Fn   *ssa.Function
 }
 
 func scalar(t types.Type, s string) Val { return Val{K: VScalar, T: t, S: s} }
